@@ -467,6 +467,30 @@ def on_slot(refdom, elem):
     return None
 
 
+def composite_order(elem):
+    """local basis function r of a composite must be the function of the component / component-local index that the row r
+    of Dofs is numbered on: groups nodal, edge, facet, interior (the order of _bfun_counts and of element_dofs), inside a
+    group slot by slot, inside a slot component by component.  Compared with ElementComposite._deduce_bfun."""
+    comps = list(elem.elems)
+    rd = elem.refdom
+    nslots = [int(rd.nnodes), int(rd.nedges), int(rd.nfacets), 1]
+    cnts = [[int(c.nodal_dofs), int(c.edge_dofs), int(c.facet_dofs), int(c.interior_dofs)] for c in comps]
+    want = []
+    for g in range(4):
+        for s in range(nslots[g]):
+            for j, c in enumerate(cnts):
+                off = sum(c[h] * nslots[h] for h in range(g))
+                want += [(j, off + s * c[g] + k) for k in range(c[g])]
+    if len(want) != int(np.sum(elem._bfun_counts())):
+        return f'{len(want)} expected local basis functions, _bfun_counts sums to {int(np.sum(elem._bfun_counts()))}'
+    for r, w in enumerate(want):
+        n, ind = elem._deduce_bfun(r)
+        if (int(n), int(ind)) != w:
+            return (f'local basis function {r} (row {r} of element_dofs) is function {int(ind)} of component {int(n)}, but that row '
+                    f'is numbered on the entity of function {w[1]} of component {w[0]} (groups nodal, edge, facet, interior)')
+    return None
+
+
 def _oracle_basis(ctx, rng):
     """doflocs of shared DOFs agree from every cell; assembled matrices have shape (N_test, N_trial) and are zero
     outside the cell-sharing sparsity"""
@@ -480,7 +504,12 @@ def _oracle_basis(ctx, rng):
             base = elem
             while hasattr(base, 'elem'):
                 base = base.elem
-            if not hasattr(elem, 'elems') and not hasattr(elem, 'elem') and hasattr(elem, 'doflocs'):
+            if hasattr(elem, 'elems'):
+                msg = composite_order(elem)
+                ctx.count(('bfun-order', name), nontrivial=True)
+                if msg:
+                    ctx.fail(f'elem={name}:bfun-order', f'{name}: {msg}', {'element': name, 'kind': kind})
+            if hasattr(elem, 'doflocs'):
                 msg = on_slot(elem.refdom, elem)
                 ctx.count(('on_slot', name), nontrivial=False)
                 if msg:
@@ -493,7 +522,7 @@ def _oracle_basis(ctx, rng):
                 else:
                     m, info = M.gen_mesh(rng, kind, maxcells=6 if kind in ('hex', 'wedge', 'tet') else 12)
                 try:
-                    basis = Basis(m, elem)
+                    basis = Basis(m, elem, intorder=3)     # the order is irrelevant here (and 2*maxdeg may exceed the tables)
                 except Exception as ex:
                     ctx.fail(f'elem={name}:basis-exception', f'Basis({type(m).__name__}, {name}) raises {type(ex).__name__}: {ex}',
                              {'kind': kind, 'element': name, 'p': m.p.tolist(), 't': m.t.tolist()})
@@ -568,11 +597,17 @@ def replay(ctx, data):
         return run(ctx)
     fac = dict(EL.all_elements(inp['kind']))[inp['element']]
     elem = fac()
+    if data['key'].endswith(':bfun-order'):
+        msg = composite_order(elem)
+        ctx.log('replay', data['key'], '->', msg or 'consistent on this tree')
+        if msg:
+            ctx.fail(data['key'], msg, inp)
+        return
     if data['key'].endswith(':doflocs'):
-        msg = on_slot(elem.refdom, elem) if hasattr(elem, 'doflocs') and not hasattr(elem, 'elem') and not hasattr(elem, 'elems') else None
+        msg = on_slot(elem.refdom, elem) if hasattr(elem, 'doflocs') else None
         if msg is None and 'p' in inp:
             m = M.build(inp['kind'], np.array(inp['p'], dtype=float), np.array(inp['t']), **({'sort_t': True} if inp['kind'] == 'tri' else {}))
-            b = Basis(m, elem)
+            b = Basis(m, elem, intorder=3)
             X = b.mapping.F(np.asarray(elem.doflocs).T)
             dev = max(float(np.abs(b.doflocs[:, b.element_dofs[r]] - X[:, :, r]).max()) for r in range(b.element_dofs.shape[0]))
             msg = f'location table deviates by {dev:.3g}' if dev > 1e-9 * max(1.0, float(np.abs(m.p).max())) else None
